@@ -247,6 +247,36 @@ def gen_members(rng, nmax, fixtures=None, allow_empty=True):
     return out
 
 
+def add_duplicates(rng, members):
+    """Entries that share a member name (archive updated with zipfile mode 'a', `jar uf`, `tar -r`): 1-2 more
+    entries with the same name and different contents at random positions, and/or a name differing only in case.
+    Every entry is identified by its POSITION in the listing; -> (members, number of inserted entries)."""
+    members = list(members)
+    cands = [m for m in members if m[1] == "data" and expected_member(m[0], m[1]) and len(m[2]) < 2000]
+    added = 0
+    if cands and rng.random() < 0.35:
+        name, _, data = rng.choice(cands)
+        ext = os.path.splitext(name)[1].lower()
+        for k in range(rng.randint(1, 2)):
+            new = gen_doc(rng, ext if ext in (".txt", ".md", ".csv", ".tsv", ".json", ".html", ".htm") else ".txt")
+            new += b" v%d" % (k + 2) if ext not in (".json", ".html", ".htm") else b""
+            if new == data:
+                new += b" "
+            members.insert(rng.randint(0, len(members)), (name, "data", new))
+            added += 1
+    cands = [m for m in members if m[1] == "data" and expected_member(m[0], m[1]) and m[0].isascii()
+             and m[0] != m[0].swapcase()]
+    if cands and rng.random() < 0.15:
+        name, _, data = rng.choice(cands)
+        d, b = os.path.split(name)
+        other = (d + "/" if d else "") + b.swapcase()
+        if all(m[0] != other for m in members):
+            members.insert(rng.randint(0, len(members)), (other, "data", gen_doc(rng, ".txt") + b" case twin"))
+            added += 1
+    return members, added
+
+
+
 def load_fixtures():
     res = REPO / "sharepoint2text" / "tests" / "resources"
     out = []
@@ -635,6 +665,8 @@ def check_members(ctx, key, what, fmt, desc, members, arch, apath, empties_expec
 # ----------------------------------------------------------------------------- main
 def run(ctx):
     logging.disable(logging.CRITICAL)
+    import warnings
+    warnings.filterwarnings("ignore", message="Duplicate name")
     from sharepoint2text.parsing.extractors import archive_extractor as ae
     rng = ctx.rng
     ctx.rule = ("archives from zipfile (stored/deflated), tarfile (plain/gz/bz2/xz) and the harness's 7z writer "
@@ -808,17 +840,18 @@ def run(ctx):
 
     # ================================================================= ZIP
     for i in range(ctx.n(120, 1200)):
-        members = gen_members(rng, 6)
+        members, ndup = add_duplicates(rng, gen_members(rng, 6))
         method = rng.choice([zipfile.ZIP_STORED, zipfile.ZIP_DEFLATED])
         mname = "stored" if method == zipfile.ZIP_STORED else "deflated"
         arch = write_zip(members, method)
         corrupt = None
-        datas = [j for j, m in enumerate(members) if m[1] == "data" and len(m[2]) >= 4]
+        names_once = [m[0] for m in members]
+        datas = [j for j, m in enumerate(members) if m[1] == "data" and len(m[2]) >= 4 and names_once.count(m[0]) == 1]
         if datas and rng.random() < 0.35:
             corrupt = rng.choice(datas)
             raw = bytearray(arch)
             with zipfile.ZipFile(io.BytesIO(arch)) as zf:
-                zi = zf.getinfo(members[corrupt][0])
+                zi = zf.infolist()[corrupt]   # the entry at this POSITION (write_zip writes one entry per member)
                 start = zi.header_offset + 30 + len(zi.filename.encode("utf-8" if zi.flag_bits & 0x800 else "cp437")) + len(zi.extra)
                 pos = start + rng.randrange(max(1, zi.compress_size))
             raw[pos] ^= 0x55
@@ -849,10 +882,11 @@ def run(ctx):
             zopen, coq_opt(apath, coq_str), c_names([m[0] for m in members]), c_calls(list(out)), c_term(t)))
         infoz.append((mname, corrupt, [m[0] for m in members]))
         ctx.case(("zip", mname, corrupt, [(m[0], m[1], len(m[2])) for m in members]), len(members) >= 2,
-                 kind=f"zip:{mname}" + (":corrupt" if corrupt is not None else ""))
+                 kind=f"zip:{mname}" + (":corrupt" if corrupt is not None else "") + (":dupnames" if ndup else ""))
         if corrupt is None:
-            check_members(ctx, f"zip-members:{mname}", "ZIP member does not come out as itself", "zip", mname, members,
-                          arch, apath or "z.zip")
+            check_members(ctx, f"zip-duplicate-member-names:{mname}" if ndup else f"zip-members:{mname}",
+                          "ZIP entry does not come out as itself" + (" (entries sharing a name)" if ndup else ""), "zip",
+                          {"method": mname, "entries_sharing_a_name": ndup}, members, arch, apath or "z.zip")
         else:
             check_members(ctx, "zip-corrupt-member-aborts-archive", "a corrupt ZIP member affects other members", "zip",
                           {"method": mname, "corrupt_member": members[corrupt][0]}, members, arch, apath or "z.zip",
@@ -876,17 +910,20 @@ def run(ctx):
             members = [m for m in members if all(ord(c) < 128 for c in m[0])]
         if comp == "" and not members:
             members = [("only.txt", "data", b"only member\n")]
+        members, ndup = add_duplicates(rng, members)
         withsym = list(members)
         if rng.random() < 0.3:
             withsym.insert(rng.randint(0, len(withsym)), ("link%d.txt" % i, "symlink", b""))
         arch = write_tar(withsym, comp, fmt)
         corrupt = None
-        datas = [j for j, m in enumerate(members) if m[1] == "data" and len(m[2]) >= 4]
+        names_once = [m[0] for m in members]
+        datas = [j for j, m in enumerate(members) if m[1] == "data" and len(m[2]) >= 4 and names_once.count(m[0]) == 1]
         if comp == "" and datas and rng.random() < 0.3:
             corrupt = rng.choice(datas)
             raw = bytearray(arch)
             with tarfile.open(fileobj=io.BytesIO(arch)) as tf:
-                ti = tf.getmember(members[corrupt][0])
+                pos_in_tar = next(k for k, m in enumerate(withsym) if m is members[corrupt])
+                ti = tf.getmembers()[pos_in_tar]   # the entry at this POSITION
                 pos = ti.offset_data + rng.randrange(ti.size)
             raw[pos] ^= 0x55
             arch = bytes(raw)
@@ -917,8 +954,8 @@ def run(ctx):
                 topen, coq_opt(apath, coq_str), c_names([m[0] for m in withsym]), c_calls(list(out)), c_term(t)))
             infot.append((comp, corrupt, [m[0] for m in withsym]))
         ctx.case(("tar", comp, fmt, corrupt, [(m[0], m[1], len(m[2])) for m in withsym]), len(members) >= 2,
-                 kind=f"tar:{comp or 'plain'}" + (":corrupt" if corrupt is not None else ""))
-        key = f"tar-members:{comp or 'plain'}"
+                 kind=f"tar:{comp or 'plain'}" + (":corrupt" if corrupt is not None else "") + (":dupnames" if ndup else ""))
+        key = f"tar-duplicate-member-names:{comp or 'plain'}" if ndup else f"tar-members:{comp or 'plain'}"
         if shadow:
             key = "tar-magic-shadowed-by-first-member-name"
         check_members(ctx, key if corrupt is None else "tar-corrupt-member", "TAR member does not come out as itself",
